@@ -685,6 +685,12 @@ class Analysis(object):
                     for home in sorted(self.homes.get(t[1], ())):
                         self._persist(fr, canon(home + ("*",)), refs, "merge", node, "F")
                 self.hput(t[1], "*", refs)
+                # keys keep their names: remember engine-internal (double underscore) keys
+                for rt in right:
+                    if rt[0] == "F":
+                        for fld, vals in list(self.heap.get(rt[1], {}).items()):
+                            if isinstance(fld, str) and fld.startswith("__"):
+                                self.hput(t[1], fld, frozenset(vals))
         if S in left or not left:
             return left | right  # merge_dicts(None, right) returns right
         return left
@@ -1535,7 +1541,16 @@ class Analysis(object):
     def foreign(self, fr, name, args, kwargs, e):
         self.stats["foreign"] += 1
         if name in self.FOREIGN_DEEP:
-            return self.fresh(fr, e, "deepcopy", {}, deep=True)
+            out = self.fresh(fr, e, "deepcopy", {}, deep=True)
+            # a copy has the same keys: keep the names of engine-internal keys
+            (ot,) = out
+            for a in args:
+                for at in a:
+                    if at[0] == "F":
+                        for fld in list(self.heap.get(at[1], {})):
+                            if isinstance(fld, str) and fld.startswith("__"):
+                                self.hput(ot[1], fld, SAV)
+            return out
         if name.endswith("queue.Queue") or name == "queue.Queue":
             return self.fresh(fr, e, "queue", {})
         if name in ("ujson.dumps", "json.dumps", "logging.getLogger", "re.match", "re.search",
